@@ -2559,8 +2559,8 @@ func c15CheckLister(c *Ctx, R4 string, f *ssa.Function) {
 
 var c15Mutants = []Mutant{
 	{Name: "referrers-page-ignores-configured-limit", File: "registry/remote/repository.go",
-		Old: "\tlr := limitReader(resp.Body, r.MaxMetadataBytes)\n\tif err := json.NewDecoder(lr).Decode(&index); err != nil {",
-		New: "\tlr := limitReader(resp.Body, 0)\n\tif err := json.NewDecoder(lr).Decode(&index); err != nil {",
+		Old:    "\tlr := limitReader(resp.Body, r.MaxMetadataBytes)\n\tif err := json.NewDecoder(lr).Decode(&index); err != nil {",
+		New:    "\tlr := limitReader(resp.Body, 0)\n\tif err := json.NewDecoder(lr).Decode(&index); err != nil {",
 		Expect: "C15.R1.limit-is-the-option"},
 	// applies only once the truncation defect (D8) is repaired the way notes/triage/d8-candidate-fix.diff does; skipped otherwise
 	{Name: "d8-size-guard-removed", File: "registry/remote/repository.go",
